@@ -4,7 +4,8 @@
    the checker run on implementation outputs: GainLoss/Replay.v. *)
 From Coq Require Import ZArith List Bool.
 From LV Require Import GainLoss.RoseTree GainLoss.Replay GainLoss.ReplayProofs GainLoss.GetGls
-  GainLoss.GetGlsProofs GainLoss.GetGlsTopProofs GainLoss.GetGLSr GainLoss.TopDown GainLoss.GainLossExec.
+  GainLoss.GetGlsProofs GainLoss.GetGlsTopProofs GainLoss.GetGLSr GainLoss.GetGLSrProofs GainLoss.TopDown
+  GainLoss.TopDownProofs GainLoss.GainLossExec.
 Import ListNotations.
 Local Open Scope Z_scope.
 
@@ -33,6 +34,31 @@ Theorem C07_kept_scenarios_replay :
 Proof. exact (fun pat gpl g l t => scen_inv pat gpl g l t). Qed.
 Print Assumptions C07_kept_scenarios_replay.
 
+(* restriction mode (and the weighted mode of the same method): PhyBo._get_GLS.  Whatever
+   survives the weight / restriction / gains-per-lineage filters and the final selection
+   reproduces the pattern.  Too tight a restriction makes the code raise (model: Err), which the
+   hypothesis [= Ok ev] excludes. *)
+Theorem C07_get_GLSr_replays :
+  forall (pat : list (Z * Z)) (t : tree) (mode : gmode) (gpl : Z) (push : bool) (md : Z) (ev : list (Z * Z)),
+    NoDup (names t) -> pattern_known pat t -> (md = 0 \/ md = -1) ->
+    get_GLSr pat t mode gpl push md = Ok ev ->
+    reproduces md pat t ev.
+Proof. exact get_GLSr_replays. Qed.
+Print Assumptions C07_get_GLSr_replays.
+
+(* top-down mode: PhyBo._get_GLS_top_down, every restriction value.  Guard: the common ancestor
+   of the presences is an internal node (i.e. there are at least two presences) or the restriction
+   is 1: PhyBo.get_GLS answers single-presence patterns itself and never calls the method on them
+   (called directly on a single presence with restriction >= 2 the method returns []). *)
+Theorem C07_top_down_replays :
+  forall (pat : list (Z * Z)) (t : tree) (mode md : Z) (ev : list (Z * Z)),
+    NoDup (names t) -> pattern_known pat t -> (md = 0 \/ md = -1) ->
+    (is_tip (lca_sub (present_ge1 (recode md pat)) t) = false \/ mode = 1) ->
+    top_down pat t mode md = Ok ev ->
+    reproduces md pat t ev.
+Proof. exact top_down_replays. Qed.
+Print Assumptions C07_top_down_replays.
+
 (* the checker that is run on every implementation output decides [reproduces] *)
 Theorem C07_replay_checker_correct :
   forall md pat t ev, replay_okb md pat t ev = true <-> reproduces md pat t ev.
@@ -60,3 +86,22 @@ Proof. exact (C07_get_gls_replays _ _ _ _ _ _ _ _ ex_nodup ex_known (or_introl e
 (* and a scenario with a misplaced loss is rejected by the checker *)
 Example ex_rejected : replay_okb 0 ex_pat ex_tree [(2, 0); (3, 0); (5, 0); (10, 0); (0, 1)] = false.
 Proof. vm_compute. reflexivity. Qed.
+
+(* the other two modes on the same tree and pattern *)
+Example ex_restriction : get_GLSr ex_pat ex_tree (ModeR 3) 2 true (-1) = Ok [(1, 1); (3, 1)].
+Proof. vm_compute. reflexivity. Qed.
+Example ex_restriction_too_tight : get_GLSr ex_pat ex_tree (ModeR 0) 1 true 0 = Err 3.
+Proof. vm_compute. reflexivity. Qed.
+Example ex_topdown : top_down ex_pat ex_tree 2 0 = Ok [(1, 1); (3, 1); (10, 0)].
+Proof. vm_compute. reflexivity. Qed.
+Example ex_topdown_guard : is_tip (lca_sub (present_ge1 (recode 0 ex_pat)) ex_tree) = false.
+Proof. vm_compute. reflexivity. Qed.
+Example ex_topdown_reproduces : reproduces 0 ex_pat ex_tree [(1, 1); (3, 1); (10, 0)].
+Proof.
+  exact (C07_top_down_replays _ _ _ _ _ ex_nodup ex_known (or_introl eq_refl) (or_introl ex_topdown_guard) ex_topdown).
+Qed.
+(* the guard of the top-down theorem is needed: a single presence, restriction 2 *)
+Example ex_topdown_single_presence :
+  top_down [(6, 0); (5, 0); (4, 0); (3, 1); (2, 0); (1, 0)] ex_tree 2 0 = Ok []
+  /\ replay_okb 0 [(6, 0); (5, 0); (4, 0); (3, 1); (2, 0); (1, 0)] ex_tree [] = false.
+Proof. vm_compute. split; reflexivity. Qed.
